@@ -493,3 +493,32 @@ _reg("import:names-paren", "importnames", 0, _mk(_visit(_import_names("paren", "
 _reg("import:names-paren-last", "importnames", 0, _mk(_visit(_import_names("paren-nocomma", "last"))), False)
 _reg("import:names-backslash", "importnames", 0, _mk(_visit(_import_names("backslash", "both"))), False)
 _reg("import:names-backslash-last", "importnames", 0, _mk(_visit(_import_names("backslash", "last"))), False)
+
+
+# --------------------------------------------------------------------------- decoys nested inside arguments
+
+
+class _NestedDecoys(cst.CSTTransformer):
+    """Every dict literal passed as a keyword argument gets one more entry, under a neutral key, whose value is a dict with the
+    SAME keys (values: marker lists): an edit of the call's own entries must not reach look-alike entries one level down.
+    options={"verify_signature": False} -> options={"verify_signature": False, "zz_decoy": {"verify_signature": ["zz_keep"]}}"""
+
+    def __init__(self):
+        self.changed = False
+
+    def leave_Arg(self, original_node, updated_node):
+        v = updated_node.value
+        if updated_node.keyword is None or not isinstance(v, cst.Dict) or not v.elements:
+            return updated_node
+        keys = [e.key for e in v.elements if isinstance(e, cst.DictElement) and isinstance(e.key, cst.SimpleString)]
+        if not keys:
+            return updated_node
+        inner = ", ".join(f"{cst.Module([]).code_for_node(k)}: [\"zz_keep\"]" for k in keys)
+        body = cst.Module([]).code_for_node(v.with_changes(lbrace=cst.LeftCurlyBrace(), rbrace=cst.RightCurlyBrace()))
+        inside = body.strip()[1:-1].strip().rstrip(",")
+        new = cst.parse_expression("{" + inside + ", \"zz_decoy\": {" + inner + "}}")
+        self.changed = True
+        return updated_node.with_changes(value=new)
+
+
+_reg("args:nested-decoys", "args", 0, _mk(_visit(_NestedDecoys)), False)
